@@ -82,6 +82,10 @@ impl BRC20ProgEngine {
             }
         }
 
+        if genesis_height != self.get_next_block_height()? {
+            return Err("Genesis height is not the next block height".into());
+        }
+
         // Deploy BRC20 Controller contract
         let result = self.add_tx_to_block(
             genesis_timestamp,
